@@ -1,31 +1,37 @@
 (* C17/Model.v — the compiled-model cache as a state machine.
-   Files: the model definition (.py), a C file it includes, the kernel templates.
-   Caches: in-process module cache keyed by dependency mtimes (custom/__init__.py),
-   in-process template cache keyed by mtime (generate.load_template), on-disk
-   library cache keyed by (CRC32 tag of the generated source, precision bits)
-   (kerneldll.make_dll).  Texts are abstract identifiers; [gen] assembles the
-   kernel source from the three texts; [tag] is generate.tag_source. *)
+   Files: the model definition (.py), a C file it includes, and the two kernel templates
+   (kernel_header.c, kernel_iq.c).  Every file has its OWN modification time; an edit gives the file
+   a new text and a new time (the property's premise is that this time is later than the file's
+   previous one - nothing is assumed about the times of different files).
+   Caches: in-process module cache with one timestamp per dependency (custom/__init__.py;
+   [per_file = false] is the earlier policy of a single "newest" stamp), in-process template cache
+   with one entry per template file keyed by its mtime (generate.load_template), on-disk library
+   cache keyed by (CRC32 tag of the generated source, precision bits) (kerneldll.make_dll).
+   Texts are abstract identifiers; [gen] assembles the kernel source from the four texts; [tag] is
+   generate.tag_source. *)
 From Coq Require Import List Arith Bool.
 Import ListNotations.
 
 Section Model.
   Variable Src : Type.
-  Variable gen : nat -> nat -> nat -> Src.   (* model text, included C text, template text *)
+  Variable gen : nat -> nat -> nat -> nat -> Src.   (* model text, included C text, header text, kernel_iq text *)
   Variable tag : Src -> nat.
+  Variable per_file : bool.        (* module cache stamps: true = one per dependency (current code) *)
 
   Record file := MkFile { txt : nat; mtime : nat }.
   Record st := MkSt {
-    clock : nat;
-    fm : file; fc : file; ft : file;
-    mcache : option (nat * nat);            (* module cache: (text loaded, newest dependency mtime at load) *)
-    tcache : option (nat * nat);            (* template cache: (mtime at load, text) *)
+    fm : file; fc : file; fh : file; fk : file;
+    mcache : option (nat * nat * nat);      (* module cache: text loaded, stamp of the .py, stamp of the C file *)
+    hcache : option (nat * nat);            (* template cache entry of kernel_header.c: (mtime at load, text) *)
+    kcache : option (nat * nat);            (* template cache entry of kernel_iq.c *)
     dlls : list ((nat * nat) * Src)         (* (tag, bits) |-> the source the library was compiled from *)
   }.
 
-  Inductive op := EditM (t : nat) | EditC (t : nat) | EditT (t : nat) | Load (bits : nat) | Fresh.
+  (* an edit gives a file the text [t] and the modification time [time] *)
+  Inductive op := EditM (t time : nat) | EditC (t time : nat) | EditH (t time : nat) | EditK (t time : nat)
+                | Load (bits : nat) | Fresh.
 
-  Definition init (m c t : nat) : st :=
-    MkSt 0 (MkFile m 0) (MkFile c 0) (MkFile t 0) None None [].
+  Definition init (m c h k : file) : st := MkSt m c h k None None None [].
 
   Fixpoint lookup (k : nat * nat) (l : list ((nat * nat) * Src)) : option Src :=
     match l with
@@ -33,36 +39,53 @@ Section Model.
     | (k', s) :: r => if (fst k' =? fst k) && (snd k' =? snd k) then Some s else lookup k r
     end.
 
+  (* generate.load_template for one file: reread when not cached or when the file is newer than the entry *)
+  Definition template (cache : option (nat * nat)) (f : file) : nat * nat :=
+    match cache with
+    | Some (time, x) => if time <? mtime f then (mtime f, txt f) else (time, x)
+    | None => (mtime f, txt f)
+    end.
+
+  (* custom.load_custom_kernel_module: need_reload = any(stamp[p] < getmtime(p) for p in depends) *)
+  Definition stamps (s : st) : nat * nat :=
+    if per_file then (mtime (fm s), mtime (fc s))
+    else let n := Nat.max (mtime (fm s)) (mtime (fc s)) in (n, n).
+  Definition module (s : st) : nat * nat * nat :=
+    match mcache s with
+    | Some (x, sm, sc) =>
+        if (sm <? mtime (fm s)) || (sc <? mtime (fc s))
+        then (txt (fm s), fst (stamps s), snd (stamps s)) else (x, sm, sc)
+    | None => (txt (fm s), fst (stamps s), snd (stamps s))
+    end.
+
+  (* the property's premise for one step: an edit advances the modification time OF THAT FILE *)
+  Definition advances (s : st) (o : op) : bool :=
+    match o with
+    | EditM _ time => mtime (fm s) <? time
+    | EditC _ time => mtime (fc s) <? time
+    | EditH _ time => mtime (fh s) <? time
+    | EditK _ time => mtime (fk s) <? time
+    | _ => true
+    end.
+
   (* returns the new state and, for Load, the source of the library that is evaluated *)
   Definition step (s : st) (o : op) : st * option Src :=
     match o with
-    | EditM t => let c := S (clock s) in
-        (MkSt c (MkFile t c) (fc s) (ft s) (mcache s) (tcache s) (dlls s), None)
-    | EditC t => let c := S (clock s) in
-        (MkSt c (fm s) (MkFile t c) (ft s) (mcache s) (tcache s) (dlls s), None)
-    | EditT t => let c := S (clock s) in
-        (MkSt c (fm s) (fc s) (MkFile t c) (mcache s) (tcache s) (dlls s), None)
-    | Fresh => (MkSt (clock s) (fm s) (fc s) (ft s) None None (dlls s), None)
+    | EditM t time => (MkSt (MkFile t time) (fc s) (fh s) (fk s) (mcache s) (hcache s) (kcache s) (dlls s), None)
+    | EditC t time => (MkSt (fm s) (MkFile t time) (fh s) (fk s) (mcache s) (hcache s) (kcache s) (dlls s), None)
+    | EditH t time => (MkSt (fm s) (fc s) (MkFile t time) (fk s) (mcache s) (hcache s) (kcache s) (dlls s), None)
+    | EditK t time => (MkSt (fm s) (fc s) (fh s) (MkFile t time) (mcache s) (hcache s) (kcache s) (dlls s), None)
+    | Fresh => (MkSt (fm s) (fc s) (fh s) (fk s) None None None (dlls s), None)
     | Load bits =>
-        (* need_reload: any(cache_time < getmtime(p) for p in depends) *)
-        let mc := match mcache s with
-                  | Some (x, time) =>
-                      if (time <? mtime (fm s)) || (time <? mtime (fc s))
-                      then (txt (fm s), Nat.max (mtime (fm s)) (mtime (fc s)))
-                      else (x, time)
-                  | None => (txt (fm s), Nat.max (mtime (fm s)) (mtime (fc s)))
-                  end in
-        (* load_template: filename not in cache or mtime > cached mtime *)
-        let tc := match tcache s with
-                  | Some (time, x) => if time <? mtime (ft s) then (mtime (ft s), txt (ft s)) else (time, x)
-                  | None => (mtime (ft s), txt (ft s))
-                  end in
+        let mc := module s in
+        let hc := template (hcache s) (fh s) in
+        let kc := template (kcache s) (fk s) in
         (* make_source reads the included C file every time *)
-        let src := gen (fst mc) (txt (fc s)) (snd tc) in
+        let src := gen (fst (fst mc)) (txt (fc s)) (snd hc) (snd kc) in
         let key := (tag src, bits) in
         match lookup key (dlls s) with
-        | Some built => (MkSt (clock s) (fm s) (fc s) (ft s) (Some mc) (Some tc) (dlls s), Some built)
-        | None => (MkSt (clock s) (fm s) (fc s) (ft s) (Some mc) (Some tc) ((key, src) :: dlls s), Some src)
+        | Some built => (MkSt (fm s) (fc s) (fh s) (fk s) (Some mc) (Some hc) (Some kc) (dlls s), Some built)
+        | None => (MkSt (fm s) (fc s) (fh s) (fk s) (Some mc) (Some hc) (Some kc) ((key, src) :: dlls s), Some src)
         end
     end.
 
@@ -70,5 +93,12 @@ Section Model.
     match ops with
     | [] => (s, [])
     | o :: r => let (s', out) := step s o in let (s'', outs) := run s' r in (s'', out :: outs)
+    end.
+
+  (* every edit of the history advances its file's time *)
+  Fixpoint advancing (s : st) (ops : list op) : bool :=
+    match ops with
+    | [] => true
+    | o :: r => advances s o && advancing (fst (step s o)) r
     end.
 End Model.
